@@ -553,10 +553,10 @@ Proof.
     rewrite (multiarch_word (arch_string a) [] _ Hm Hstop). cbn [app]. rewrite (arch_named_ok _ _ Hok), Hrt.
     replace (set_arch (with_name fresh (c0 :: n0)) a) with (base_of p)
       by (unfold base_of, set_arch, with_name, fresh; cbn; now rewrite En, Ea).
-    apply H1. lia.
+    rewrite H1 by lia. apply guard_added.
   - cbn [app]. replace (with_name fresh (c0 :: n0)) with (base_of p)
       by (unfold base_of, with_name, fresh; cbn; now rewrite En, Ea).
-    apply H1. lia.
+    rewrite H1 by lia. apply guard_added.
 Qed.
 
 (* a substvar is a whole alternative: what follows it is blanks and then ',' '|' or the end, and the blanks are consumed *)
@@ -591,7 +591,7 @@ Proof.
   assert (H40 : eqc (peek rest') 40 = false) by (unfold eqc in *; apply N.eqb_eq in Hb; rewrite Hb; reflexivity).
   assert (H91 : eqc (peek rest') 91 = false) by (unfold eqc in *; apply N.eqb_eq in Hb; rewrite Hb; reflexivity).
   assert (H60 : eqc (peek rest') 60 = false) by (unfold eqc in *; apply N.eqb_eq in Hb; rewrite Hb; reflexivity).
-  rewrite H58, HW, H40, H91, H60. cbn [orb]. rewrite Hb. rewrite orb_true_r. cbn [orb p_name fresh]. cbn [relation_loop]. rewrite ?Hb. reflexivity.
+  rewrite H58, HW, H40, H91, H60. cbn [orb]. rewrite Hb. rewrite orb_true_r. cbn [orb p_name fresh]. rewrite guard_same. cbn [relation_loop]. rewrite ?Hb. reflexivity.
 Qed.
 
 Lemma possi_head_facts p rest : wf_any p ->
